@@ -18,6 +18,12 @@ from core import Fraction, frac, rat, ratlist, hexs
 
 EPS = Fraction(1, 2 ** 53)
 
+MODELLED = ["evo/core/result.py:merge_results", "evo/core/result.py:Result.__init__", "evo/core/result.py:Result.add_np_array",
+            "evo/core/result.py:Result.add_info", "evo/core/result.py:Result.add_stats",
+            "evo/tools/pandas_bridge.py:result_to_df", "evo/tools/pandas_bridge.py:load_results_as_dataframe",
+            "evo/tools/pandas_bridge.py:save_df_as_table", "evo/main_res.py:run",
+            "evo/tools/file_interface.py:save_res_file", "evo/tools/file_interface.py:load_res_file"]
+
 RULE = ("case kinds: merge (0..8 results; statistics and arrays under 1..5 keys; per-key array lengths equal / unequal in one "
         "key / empty; dict insertion orders permuted per result; one statistic or array key differing in one result; dyadic "
         "grid values compared exactly, random values within a few ulp of the exact rational mean; inputs snapshotted before "
@@ -545,6 +551,7 @@ def shrink(case):
 
 def check(ctx):
     lean = core.lean_side(ctx.prop, ctx.tier)
+    core.drift(ctx, MODELLED)
     cases = list(gen_cases(ctx))
     evaluate(ctx, cases)
     core.shrink_all(ctx, shrink, evaluate)
